@@ -5,6 +5,23 @@ PROPERTY THEOREMS ONLY (model: Martian/Sched.lean, lemmas: Proofs/Sched.lean).
 `s.resets` of every restart-time reset.  All theorems hold for every state
 reachable by any accepted history of any graph.
 
+AT-LEAST-ONCE (progress + termination), section "every failure-free run completes":
+`deadlock_free`, `measure_never_increases`, `measure_well_founded`,
+`failure_free_run_terminates`, `maximal_run_complete` and the combination
+`failure_free_run_completes_exactly_once`.  Vocabulary (Martian/SchedProgress.lean):
+`mu` = progress measure (forks without chunk definition, potential of all sentinel
+sets and cached node states), ordered lexicographically by `LexLt`;
+`Ev.structural` = fork / forkorder / mkchunks-while-loading (the environment's
+fork expansion; the model leaves its extent open, so a run is assumed to contain
+finitely many of them) and crash / restart / reset; `Ev.quiet` = failure-free and
+not structural; `Progress s e` = e quiet, enabled, lowers `mu`; `Finished s` =
+normal phase, every node Complete/Disabled with a current cached state.
+The event language lets the environment stutter for ever (`stepend`, `refresh`,
+`killed`, re-reads `R`/`D`/`W` of known files, `U`, `nodestate` restating the state):
+those are exactly the quiet events that leave `mu` unchanged, and `Fair` says a run
+does not consist of them only while the pipestance is unfinished and a progress
+event is enabled (weak fairness towards the scheduler/job alphabet as a whole).
+
 `exactly_once_at_complete` is proved for FAILURE-FREE histories (the property
 says "in a run without failures"): `FailureFree h` = no `jobend … errors|assert`,
 no `silentfail`, no `W … errors|assert`, no `crash`/`restart`/`reset`.
@@ -12,6 +29,8 @@ no `silentfail`, no `W … errors|assert`, no `crash`/`restart`/`reset`.
 import Martian.Sched
 import Proofs.Sched
 import Proofs.SchedOnce
+import Martian.SchedProgress
+import Proofs.SchedProgress
 
 namespace Props.C03
 open Martian.Sched
@@ -126,6 +145,89 @@ theorem completion_chain {g : List NodeInfo} {evs : List Ev} {s : State}
   · have h0 := (hobj ⟨n, f, .chunk 0⟩).kk rfl (Or.inr (Or.inl (a 0 (by omega))))
     exact (hobj _).sub _ (hinv.c3 n f 0 h0)
 
+/-! ### every failure-free run completes (at-least-once) -/
+
+/-- `deadlock_free`: after EVERY accepted failure-free history of an acyclic graph the
+pipestance is finished, or some event of the scheduler/job/journal alphabet is enabled
+that lowers the measure (the cached state of a node is refreshed, the first refresh ends
+loading, a stub/fork `_complete` is written, chunks are defined, a job is submitted,
+starts, ends, or its `_complete` is read). -/
+theorem deadlock_free {g : List NodeInfo} {evs : List Ev} {s : State} (hac : Acyclic g)
+    (hrep : replay (init g) evs = .ok s) (hff : FailureFree evs) :
+    Finished s ∨ ∃ e, Progress s e :=
+  ff_finished_or_progress (replay_reach hrep) (ff_replayFrom Reach.init (ffInv_init g) hff hrep) hac
+
+/-- `measure_never_increases`: in ANY state, a quiet enabled event lowers the measure or
+leaves it unchanged (the latter are the stuttering events) … -/
+theorem measure_never_increases {s : State} {e : Ev} (hen : enabled s e = true)
+    (hq : e.quiet s = true) : LexLt (mu (apply s e)) (mu s) ∨ mu (apply s e) = mu s :=
+  mu_quiet hen hq
+
+/-- … and the order is well founded: no infinite descent. -/
+theorem measure_well_founded : WellFounded LexLt := lexLt_wf
+
+/-- `failure_free_run_terminates`: an infinite run that is quiet from some point on
+lowers the measure only finitely often — from some point on it only stutters.
+(Hence every maximal failure-free run with finitely many fork-structure events
+contains finitely many non-stuttering events.) -/
+theorem failure_free_run_terminates {s0 : State} {σ : Nat → State} {es : Nat → Ev}
+    (hrun : Run s0 σ es) {K : Nat} (hq : ∀ i, K ≤ i → (es i).quiet (σ i) = true) :
+    ∃ M, K ≤ M ∧ ∀ j, M ≤ j → mu (σ (j + 1)) = mu (σ j) := by
+  obtain ⟨M, hM, hrest⟩ := eventually_stutters hrun _ K rfl hq
+  refine ⟨M, hM, fun j hj => ?_⟩
+  have := mu_quiet (hrun.en j) (hq j (by omega))
+  rw [← hrun.next] at this
+  rcases this with h | h
+  · exact absurd h (hrest j hj)
+  · exact h
+
+/-- `maximal_run_complete`: a finite accepted failure-free history after which no
+progress event is enabled (a maximal run) has finished the pipestance, every fork is
+complete or disabled, and every stage fork ran exactly its jobs. -/
+theorem maximal_run_complete {g : List NodeInfo} {evs : List Ev} {s : State} (hac : Acyclic g)
+    (hrep : replay (init g) evs = .ok s) (hff : FailureFree evs)
+    (hmax : ∀ e, ¬ Progress s e) :
+    Finished s ∧
+    (∀ n f, n < g.length → f ∈ s.forksOf n →
+      s.st ⟨n, f, .fork⟩ = some .complete ∨ s.st ⟨n, f, .fork⟩ = some .disabled) ∧
+    (∀ n f, s.kind n ≠ .pipeline → ExactlyOnce s n f) := by
+  have hfin : Finished s := by
+    rcases deadlock_free hac hrep hff with h | ⟨e, he⟩
+    · exact h
+    · exact absurd he (hmax e)
+  refine ⟨hfin, fun n f hn hf => ?_, fun n f hk => ?_⟩
+  · exact finished_forks hfin n f (by rw [reach_nodes (replay_reach hrep)]; exact hn) hf
+  · exact exactly_once_at_complete hrep hff n f hk
+
+/-- `failure_free_run_completes_exactly_once` (C03, both halves): every infinite run
+from the initial state of an acyclic graph that
+* contains no failure event and no crash/restart/reset (`failureFree`),
+* contains finitely many fork-structure events (`structural`: fork expansion is
+  bounded by the data; the model does not bound it), and
+* is fair (does not stutter for ever while unfinished and able to progress)
+reaches a finished state and stays finished; there every fork of every node is
+complete or disabled, every complete stage fork has submitted its split (if it
+splits), each chunk the split defined and its join exactly once and nothing else,
+and no job of a disabled fork was ever submitted. -/
+theorem failure_free_run_completes_exactly_once {g : List NodeInfo} {σ : Nat → State}
+    {es : Nat → Ev} (hac : Acyclic g) (hrun : Run (init g) σ es)
+    (hff : ∀ i, (es i).failureFree = true)
+    (hfin : ∃ K, ∀ i, K ≤ i → (es i).structural (σ i) = false) (hfair : Fair σ) :
+    ∃ M, ∀ j, M ≤ j →
+      Finished (σ j) ∧
+      (∀ n f, n < g.length → f ∈ (σ j).forksOf n →
+        (σ j).st ⟨n, f, .fork⟩ = some .complete ∨ (σ j).st ⟨n, f, .fork⟩ = some .disabled) ∧
+      (∀ n f, (σ j).kind n ≠ .pipeline → ExactlyOnce (σ j) n f) := by
+  obtain ⟨K, hK⟩ := hfin
+  have hreach := run_reach hrun
+  have hinv := run_ffInv hrun hff
+  obtain ⟨M, _, hM⟩ := fair_run_finishes hrun hfair (K := K)
+    (fun i hi => ff_quiet (hff i) (hK i hi))
+    (fun i _ => ff_finished_or_progress (hreach i) (hinv i) hac)
+  refine ⟨M, fun j hj => ⟨hM j hj, fun n f hn hf => ?_, fun n f hk => ?_⟩⟩
+  · exact finished_forks (hM j hj) n f (by rw [reach_nodes (hreach j)]; exact hn) hf
+  · exact exactly_once_of_inv (reach_objsInv (hreach j)) (reach_launchInv (hreach j)) (hinv j) n f hk
+
 /-! ### non-vacuity -/
 
 /-- a complete failure-free run of one splitting stage with two chunks -/
@@ -146,6 +248,62 @@ example : (match replay (init [{ kind := .splitstage, pre := [] }]) hfull with
         launchCount s ⟨0, 0, .split⟩ == 1 && launchCount s ⟨0, 0, .chunk 1⟩ == 1 &&
         launchCount s ⟨0, 0, .join⟩ == 1 && launchCount s ⟨0, 0, .chunk 2⟩ == 0
     | .error _ => false) = true := by decide
+
+/-- the same history followed by `stepend` for ever is a run satisfying every hypothesis of
+`failure_free_run_completes_exactly_once`: accepted, failure-free, no structural event from
+index 1 on, fair (its last event lowers the measure, afterwards it is finished) — and the
+graph is acyclic -/
+def gfull : List NodeInfo := [{ kind := .splitstage, pre := [] }]
+def σfull : Nat → State := prefixState (init gfull) hfull
+def esfull : Nat → Ev := fun i => hfull.getD i .stepend
+
+example : Acyclic gfull := topoSorted_acyclic (by decide)
+
+example : Run (init gfull) σfull esfull := run_of_list _ _ (by decide)
+
+example : ∀ i, (esfull i).failureFree = true := by
+  intro i
+  by_cases h : i < hfull.length
+  · revert i; decide
+  · have : hfull[i]? = none := by simp; omega
+    simp [esfull, List.getD, this, Ev.failureFree]
+
+example : ∀ i, 1 ≤ i → (esfull i).structural (σfull i) = false := by
+  intro i h1
+  by_cases h : i < hfull.length
+  · have : ∀ i, i < hfull.length → 1 ≤ i → (esfull i).structural (σfull i) = false := by decide
+    exact this i h h1
+  · have : hfull[i]? = none := by simp; omega
+    simp [esfull, List.getD, this, Ev.structural]
+
+theorem σfull_finished (i : Nat) (h : hfull.length ≤ i) : Finished (σfull i) := by
+  have : σfull i = σfull hfull.length := by
+    simp [σfull, prefixState, List.take_of_length_le h]
+  rw [this]
+  refine ⟨by decide, fun n hn => ?_⟩
+  have hn' : n < 1 := hn
+  have : n = 0 := by omega
+  subst this
+  decide
+
+example : Fair σfull := by
+  intro i hnf _
+  have hi : i < hfull.length := by
+    apply Classical.byContradiction
+    intro h
+    exact hnf (σfull_finished i (by omega))
+  exact ⟨21, by have : hfull.length = 22 := rfl; omega, by decide⟩
+
+/-- the measure at work on this run: after the fork exists (1 fork without chunks, 92); the
+definition of two chunks trades the first component for potential: (1, 74) → (0, 134);
+at the end (0, 82) -/
+example : mu (σfull 1) = (1, 92) ∧ mu (σfull 7) = (1, 74) ∧ mu (σfull 8) = (0, 134) ∧
+    mu (σfull 22) = (0, 82) := by decide
+
+/-- a state in which nothing has been done is not finished, and a progress event exists -/
+example : ¬ Finished (init gfull) := by intro h; exact absurd h.1 (by decide)
+example : Progress (init gfull) (.nodestate 0 .disabled) := by
+  refine ⟨by decide, by decide, by decide⟩
 
 
 def g1 : List NodeInfo := [{ kind := .splitstage, pre := [] }]
